@@ -8,7 +8,7 @@
    the C09 theorems talk about.
    Not modelled: index dtypes (can_store / astype: unbounded Z here, see C15), the conversion of
    DOK/GCXS members to COO (C05), dtype promotion of data. *)
-From Coq Require Import ZArith List Bool.
+From Coq Require Import ZArith List Bool Sorting.Sorted.
 From Verif Require Import Py PyExt Shape COO GCXS NpJoin G_join S_join.
 Import ListNotations.
 Open Scope Z_scope.
@@ -185,6 +185,11 @@ Section Join.
     | [] => []
     | (ip0, n0) :: r => ip0 ++ splice_pref n0 r
     end.
+
+  (* a valid index pointer for nnz stored entries: starts at 0, never decreases, ends at nnz
+     (the indptr conjuncts of GCXS.gcxs_wfb, see Proofs/JoinP.v: indptr_ok_wfb) *)
+  Definition indptr_ok (ip : list Z) (nnz : Z) : Prop :=
+    hd (-1) ip = 0 /\ Sorted.StronglySorted Z.le ip /\ last ip (-1) = nnz.
 
   (* GCXS.from_coo / change_compressed_axes, by their meaning: the entries ordered by
      (row, column) of the matrix view for the compressed axes ca; indices = columns,
